@@ -32,6 +32,7 @@ FUNCTIONS = [
     "pyxel.outputs.utils:to_png", "pyxel.outputs.utils:to_jpg",
     "pyxel.outputs.utils:save_to_files",
     "pyxel.models.photon_collection.load_image:load_image (include_header; witness layer)",
+    "pyxel.observation.observation_dask:run_pipelines_with_dask (outputs; witness layer)", "pyxel.observation.observation:Observation.run_pipelines (outputs; witness layer)",
 ]
 STUBS = ["pathlib.Path.exists / mkdir under the scratch prefix -> symbolic file system; datetime.now() -> opaque clock token",
          "write primitives (np.save, np.savetxt, PIL Image.save, astropy writeto, DataFrame.to_csv) -> recorders honouring their documented overwrite contract",
